@@ -19,15 +19,15 @@ def state_space_matrices(network: Network, c_values: dict[str, float] = {}, l_va
         return np.hstack((Delta, np.zeros((Delta.shape[0], voltage_source_mapper(network).N))))
     def source_and_inductance_incidence_matrix(values: dict[str, float]) -> tuple[np.ndarray, np.ndarray]:
         voltage_source_mapping_all = voltage_source_mapper(network)
-        source_mapping_all = map.default_source_mapper(network)
         Qi = source_incidence_matrix(network=network)
         Q = np.zeros((voltage_source_mapping_all.N, voltage_source_mapping_all.N), dtype=int)
         for i in voltage_source_mapping_all.values:
             Q[i][i] = 1
         Q = np.vstack((np.hstack( (Qi, np.zeros((Qi.shape[0], Q.shape[1]) ))),
                     np.hstack( (np.zeros((Q.shape[0], Qi.shape[1])), Q) )))
-        QS = Q[:,[source_mapping_all[l] for l in source_mapping_all if l not in l_values]]
-        QL = Q[:,[source_mapping_all[l] for l in source_mapping_all if l in l_values]]
+        columns = current_source_mapper(network).keys + voltage_source_mapping_all.keys
+        QS = Q[:,[i for i, l in enumerate(columns) if l not in l_values]]
+        QL = Q[:,[columns.index(l) for l in values]]
         return QS, QL
     def value_matrix(c_values: dict[str, float], l_values: dict[str, float]) -> np.ndarray:
         return np.vstack((
